@@ -573,13 +573,38 @@ def flatten(v) -> List[Any]:
     return [v]
 
 
+def protocol_methods(cls: ClassInfo) -> set:
+    """Names of the methods of the hierarchy that the context protocol (construction, entry, exit) can reach through calls on
+    self / cls / self.__class__ / type(self) / super()."""
+    defs = {}
+    for k in cls.mro:
+        for n_, f_ in k.methods.items():
+            defs.setdefault(n_, []).append(f_)
+    seen = set()
+    work = [m for m in ("__init__", "__enter__", "__exit__", "__call__") if m in defs]
+    while work:
+        m = work.pop()
+        if m in seen:
+            continue
+        seen.add(m)
+        for f_ in defs[m]:
+            for x in ast.walk(f_.node):
+                if isinstance(x, ast.Attribute) and x.attr in defs and x.attr not in seen:
+                    b = x.value
+                    if isinstance(b, ast.Name) or (isinstance(b, ast.Attribute) and b.attr == "__class__") or (
+                            isinstance(b, ast.Call) and isinstance(b.func, ast.Name) and b.func.id in ("type", "super")):
+                        work.append(x.attr)
+    return seen
+
+
 def slots_of(idx: ProgramIndex, cls: ClassInfo) -> set:
     """Class-level slots = class attributes that some classmethod of the hierarchy assigns through cls."""
     out = set()
+    protocol = protocol_methods(cls)
     for k in cls.mro:
         for fn in k.methods.values():
-            if not fn.is_classmethod():
-                continue
+            if not fn.is_classmethod() or fn.name not in protocol:
+                continue  # (a classmethod the context protocol never reaches maintains other global data, e.g. a cache)
             p0 = fn.params()[0] if fn.params() else "cls"
             for n in walk_no_nested(fn.node):
                 if isinstance(n, (ast.Assign, ast.AugAssign, ast.AnnAssign)):
